@@ -112,11 +112,24 @@ fn build(seed: u64, i: usize) -> Built {
             }
         }
     }
+    // two files in one directory whose names differ in letter case only
+    let mut case_pair: Option<(usize, usize)> = None;
+    if n >= 3 && r.chance(1, 10) {
+        let j = 1 + r.usize(n - 1);
+        let k = 1 + r.usize(n - 1);
+        if j != k {
+            nodes[k].dir = nodes[j].dir.clone();
+            nodes[k].name = format!("F{j}.circom");
+            nodes[j].name = format!("f{j}.circom");
+            case_pair = Some((j, k));
+            shapes.push("names-differing-in-case-only");
+        }
+    }
     // included files need not be called `*.circom`: only named inputs and library files do
     let mut odd_ext: BTreeSet<usize> = BTreeSet::new();
     let mut stem_dir: Option<(usize, usize)> = None;
     for k in 1..n {
-        if r.chance(1, 10) && nodes.iter().filter(|x| x.name == nodes[k].name).count() == 1 {
+        if r.chance(1, 10) && nodes.iter().filter(|x| x.name == nodes[k].name).count() == 1 && case_pair.map(|(a, b)| a != k && b != k).unwrap_or(true) {
             let ext = r.pick(&["inc", "txt", "circom.bak", "CIRCOM", ""]);
             nodes[k].name = if ext.is_empty() { format!("f{k}") } else { format!("f{k}.{ext}") };
             odd_ext.insert(k);
@@ -128,7 +141,7 @@ fn build(seed: u64, i: usize) -> Built {
     if n >= 3 && r.chance(1, 8) {
         let j = 1 + r.usize(n - 1);
         let k = 1 + r.usize(n - 1);
-        if j != k && nodes[j].name.ends_with(".circom") && !odd_ext.contains(&k) {
+        if j != k && nodes[j].name.ends_with(".circom") && !odd_ext.contains(&k) && case_pair.map(|(a, b)| a != k && b != k && a != j && b != j).unwrap_or(true) {
             let stem = nodes[j].name.trim_end_matches(".circom").to_string();
             let d = if nodes[j].dir.is_empty() { stem } else { format!("{}/{stem}", nodes[j].dir) };
             if !nodes.iter().any(|x| x.dir == d && x.name == nodes[k].name) {
@@ -157,6 +170,11 @@ fn build(seed: u64, i: usize) -> Built {
         if let Some((sj, sk)) = stem_dir {
             if [l, y, bnode].contains(&sj) || [l, y, bnode].contains(&sk) {
                 stem_dir = None;
+            }
+        }
+        if let Some((cj, ck)) = case_pair {
+            if [l, y, bnode].contains(&cj) || [l, y, bnode].contains(&ck) {
+                case_pair = None;
             }
         }
         for k in [l, y, bnode] {
@@ -436,6 +454,13 @@ fn build(seed: u64, i: usize) -> Built {
         for k in 1..n {
             if r.chance(1, 4) && !odd_ext.contains(&k) {
                 argv_inputs.push(nodes[k].path());
+            }
+        }
+        if let (Some((cj, ck)), true) = (case_pair, r.chance(1, 2)) {
+            for k in [cj, ck] {
+                if !argv_inputs.contains(&nodes[k].path()) {
+                    argv_inputs.push(nodes[k].path());
+                }
             }
         }
         if let Some((sj, sk)) = stem_dir {
@@ -979,7 +1004,7 @@ pub fn run(env: &Env) -> i32 {
     {
         let all = ["cycle", "self-include", "diamond", "double-spelling", "symlinked-file", "symlinked-dir", "library-dir", "second-library-dir", "library-file", "via-library-dir", "via-library-file",
                    "library-file-shadowed-by-local-file", "same-name-in-two-directories", "local-candidate-fails-with-other-errno", "unresolvable-include", "unsupported-pragma-in-the-graph", "directory-input",
-                   "included-file-with-another-extension", "unresolvable-include:directory-before-library-file-name", "unresolvable-include:dot-spelling-of-library-name", "unresolvable-include:same-spelling-in-two-files", "unresolvable-include:bare-name-of-a-file-elsewhere", "directory-named-like-a-file-stem"];
+                   "included-file-with-another-extension", "unresolvable-include:directory-before-library-file-name", "unresolvable-include:dot-spelling-of-library-name", "unresolvable-include:same-spelling-in-two-files", "unresolvable-include:bare-name-of-a-file-elsewhere", "directory-named-like-a-file-stem", "names-differing-in-case-only"];
         let mut probes: Vec<(&str, usize)> = all.iter().map(|k| (*k, shapes.get(k).copied().unwrap_or(0))).collect();
         probes.push(("damaged or unreadable include", results.iter().map(|r| r.faults_fired).sum::<usize>()));
         probes.push(("included-only file that does not parse, judged", results.iter().map(|r| r.syntactic_damage_judged).sum::<usize>()));
